@@ -14,7 +14,12 @@ Dimension "what happened on the handle before the request" (part 2): the handle 
 'a+'; every sequence of at most two earlier requests on the same handle (check-file, read, write /
 append, and a check-file or read during which one read of the file object fails once with EIO, with
 or without having moved the file position) is followed by one check-file probe.  The digests must be
-those of the bytes the file holds at that moment, whatever the handle did before.
+those of the bytes the file holds at that moment, whatever the handle did before.  The probe starts at
+each fixed offset and at every offset where a stale cached position of the handle could sit after the
+history (h_cursors): a request whose offset EQUALS the believed position is the one that skips the seek.
+
+Dimension "order of the client's algorithm list": lists naming both supported algorithms in both orders,
+with unsupported names in front of / between them; the first supported name of the client's list decides.
 """
 import errno
 import hashlib
@@ -33,7 +38,10 @@ META = {
                  "reference, read-call budget as termination detector",
     "text": "file sizes {0,1,255,256,1000,65535,65536,65537,131072,200000,409600} x offsets {0,1,256,"
             "65536,size-1,size,size+1} x lengths {0,1,256,65536,65537,size,size+100000} x block sizes "
-            "{0,255,256,1000,65536,65537,100000} x algorithm lists {md5, sha1, unknown+md5, sha1+md5}: "
+            "{0,255,256,1000,65536,65537,100000} x algorithm lists {md5, sha1, unknown+md5, sha1+md5, md5+sha1, "
+            "unknown+md5+unknown+sha1} (order-of-the-client's-list dimension: both orders of the two supported names, "
+            "unsupported names in front of and between them; the digests must be those of the first name of the "
+            "client's list that the server supports): "
             "full product in thorough (plus offsets {255,65535,65537,size/2}, lengths {255,1000,131072,"
             "size-1,size+1}, block sizes {257,4096,65535,131072}), the 1/6 sub-lattice (index sum = 0 mod 6, every value of every "
             "parameter kept) in quick.  Every grid case x read policy of the handle's "
@@ -48,7 +56,10 @@ META = {
             "0 / 256 / end of file (r+) or appended (a+); check-file of the whole file / of [256,512) during "
             "which the 1st or 2nd read of the file object raises EIO once, having moved the position or not; "
             "read of [0,256) / [256,512) failing the same way} x one check-file probe from offsets {0, 256, "
-            "512, 65536, original size} x (length, block size) in {(0,0), (256,256)}.  Oracle: the probe's "
+            "512, 65536, original size} + [stale-cursor probe offsets] every offset inside the file where a position "
+            "cached on the handle could sit after that history (start and clipped end of every earlier read / "
+            "check-file, the end of its first 64 KiB read, each of these advanced by the bytes written since, the "
+            "end of every requested write and the end of file) x (length, block size) in {(0,0), (256,256)}.  Oracle: the probe's "
             "digests are the hashes of the bytes the file holds at that moment (read back from disk); every "
             "un-faulted check-file of the history is judged the same way; a request hit by the injected "
             "fault may be refused.",
@@ -56,14 +67,18 @@ META = {
             "block size 0, for block sizes 1..255 and for empty ranges a refusal is accepted as well "
             "(the statement is silent there); a case that already fails with full reads and b'' at EOF "
             "is not re-run under the other read policies, a failure seen only under a policy carries the "
-            "policy class in its key (:short-reads / :eof-code); a failure of part 2 carries the history class "
+            "policy class in its key (:short-reads / :eof-code); digests that are the right ranges hashed with a "
+            "later supported name of the client's list get the key wrong-algorithm:...; a failure of part 2 carries the history class "
             "(:after-failed-read / :after-append / :after-write / :after-reads, first that applies) in its key",
     "design_ref": "4/C32",
 }
 
 SIZES = [0, 1, 255, 256, 1000, 65535, 65536, 65537, 131072, 200000, 409600]
 BLOCKS = [0, 255, 256, 1000, 65536, 65537, 100000]
-ALGS = ["md5", "sha1", "nope,md5", "sha1,md5"]
+# algorithm lists: single names, an unsupported name in front, and [order of the client's list] both orders of
+# the two supported names, alone and with unsupported names in front of / between them - the server must use
+# the FIRST name of the client's list that it supports, whatever the order of its own table
+ALGS = ["md5", "sha1", "nope,md5", "sha1,md5", "md5,sha1", "nope,md5,nada,sha1"]
 CHUNK = 65536
 
 
@@ -196,6 +211,12 @@ def first_supported(alg):
     return next(a for a in alg.split(",") if a in ("md5", "sha1"))
 
 
+def later_supported(alg):
+    """The supported names of the client's list after the first supported one (distinct from it)."""
+    names = [a for a in alg.split(",") if a in ("md5", "sha1")]
+    return [a for a in dict.fromkeys(names[1:]) if a != names[0]]
+
+
 def expected(data, off, ln, bs, alg):
     """-> (digest bytes, clipped range length, number of blocks)"""
     h = getattr(hashlib, first_supported(alg))
@@ -269,6 +290,13 @@ def judge(acc, size, data, fobj, lb, case, ctl=None, policy=BASELINE):
         # block size 1..255 accepted by the server: the statement says nothing; only termination
         return True
     if got != want:
+        for other in later_supported(alg):
+            if got == expected(data, off, ln, bs, other)[0]:
+                # the right ranges, hashed with a name the client listed AFTER one the server supports as well
+                acc.violation("wrong-algorithm:not-the-first-supported-name-of-the-client-list",
+                              {"case": rec, "requested_list": alg, "must_use": first_supported(alg),
+                               "digests_are": other, "got": got[:40], "want": want[:40]}, replay)
+                return False
         dl = hashlib.new(first_supported(alg)).digest_size
         nb = len(got) // dl
         bad = next((i for i in range(min(len(got), len(want))) if got[i] != want[i]), min(len(got), len(want)))
@@ -355,8 +383,34 @@ def h_alphabet(mode, size):
     return ops
 
 
-def h_probes(size):
-    return [(off, ln, bs) for off in (0, 256, 512, 65536, size) for ln, bs in ((0, 0), (256, 256))]
+def h_cursors(mode, size, history):
+    """[stale-cursor probe offsets] Every offset at which a position cached on the handle could sit after the
+    history if some request forgot to update or invalidate it: the start and the end (clipped at the end of
+    file of that moment) of every earlier read / check-file, and - after a write of n bytes - every such
+    offset advanced by n, the end of the requested write (offset + n) and the end of the file.
+    -> (sorted offsets, file size after the history)"""
+    cur = set()
+    for op in history:
+        if op[0] == "write":
+            off, n = op[1], op[2]
+            land = size if mode == "a+" else off
+            size = max(size, land + n)
+            cur |= {c + n for c in cur} | {off + n, land + n, size}
+        else:
+            off, n = op[1], op[2]
+            end = size if (op[0] == "check" and n == 0) else min(off + n, size)
+            cur |= {off, max(off, end)}
+            if end - off > CHUNK:
+                cur.add(off + CHUNK)        # the request is served in 64 KiB reads
+    return sorted(cur), size
+
+
+def h_probes(size, mode="r", history=()):
+    """Fixed offsets plus the stale-cursor offsets of this history that lie inside the file as it is then."""
+    offs = [0, 256, 512, 65536, size]
+    cur, now = h_cursors(mode, size, history)
+    offs += [c for c in cur if c not in offs and c < now]
+    return [(off, ln, bs) for off in offs for ln, bs in ((0, 0), (256, 256))]
 
 
 def h_histories(mode, size, maxlen):
@@ -511,8 +565,7 @@ def h_count(tier):
     for size in H_SIZES[tier]:
         for mode in H_MODES:
             maxlen = 3 if (tier == "thorough" and size == 1000) else 2
-            a = len(h_alphabet(mode, size))
-            n += sum(a ** k for k in range(maxlen + 1)) * len(h_probes(size))
+            n += sum(len(h_probes(size, mode, h)) for h in h_histories(mode, size, maxlen))
     return n
 
 
@@ -530,7 +583,7 @@ def run_history(item, acc):
         idx = (first or 0) * 7
         try:
             for h in hs:
-                for probe in h_probes(size):
+                for probe in h_probes(size, mode, h):
                     idx += 1
                     h_run(acc, client, lb, base, size, data0, mode, h, probe, idx)
         finally:
@@ -554,7 +607,9 @@ def main(tier):
         "every case is executed once per (read policy of the handle's file object, end-of-file signal) "
         "and each such execution counts as one evaluation / one distinct nontrivial case; part 2: case = "
         "(file size, open mode, sequence of earlier requests on the handle, probe), nontrivial = the probe's "
-        "clipped range is >= 256 bytes at the time of the probe",
+        "clipped range is >= 256 bytes at the time of the probe; probe offsets = fixed offsets + the stale-cursor "
+        "offsets of the history (ends/starts of earlier requests, advanced by the bytes written since); algorithm "
+        "lists include both orders of the supported names (first supported name of the client's list decides)",
         ["synchronous loopback client/server, local-directory stub handle over a plain buffered file; "
          "short reads and the SFTP_EOF code are produced by the enumerated read policy, not by the OS",
          "read policies are deterministic per request: at most k bytes per read, or only the k-th read "
